@@ -326,3 +326,57 @@ def scripted_hold(rng, spec):
             ops.append({"op": "update", "d": d})
     ops.append({"op": "observe", "on": "real"})
     spec["ops"] = ops
+
+
+def carry_open_close(rng, spec):
+    """fixed-income root holding coupon-paying securities with non-zero coupons and holding costs; positions are opened, carried,
+    closed to exactly zero in the middle of a date (after that date's first update has accrued carry on them), sometimes reopened;
+    every date is closed by an update.  Exercises the accrual / sweep of carry around a close."""
+    T = max(spec["T"], 5)
+    spec["T"] = T
+    kinds = [2, 2, 4, 1]
+    rng.shuffle(kinds)
+    names = ["a", "b", "c", "d"][:rng.randint(2, 4)]
+    spec["tree"] = {"name": "root", "fi": True, "algos": False,
+                    "kids": [{"sec": t, "kind": k, "mult": rng.choice([1.0, 1.0, 10.0]), "cfi": True} for t, k in zip(names, kinds)]}
+    grid = spec["grid"]
+    for t in TICKERS:
+        p = float(rng.randint(80, 120))
+        spec["prices"][t] = [p + rng.randint(-3, 3) for _ in range(T)]
+    spec["coupons"] = {t: [rng.choice([0.25, 0.5, 1.0, 2.0]) for _ in range(T)] for t in TICKERS}
+    # one-sided cost schedules are common (only longs are financed): long only / short only / both / none
+    sides = rng.choice(["long", "long", "short", "both", "both", "none"])
+    spec["cost_long"] = {t: [rng.choice([0.125, 0.25, 0.5]) for _ in range(T)] for t in TICKERS} if sides in ("long", "both") else None
+    spec["cost_short"] = {t: [rng.choice([0.125, 0.25]) for _ in range(T)] for t in TICKERS} if sides in ("short", "both") else None
+    spec["bidoffer"] = None
+    ops = [{"op": "adjust", "path": [], "amount": spec["capital"], "update": True, "flow": True}, {"op": "update", "d": 0}]
+    held = {}
+    for i in range(len(names)):
+        q = float(rng.choice([-1, 1, 1]) * rng.randint(5, 60))
+        ops.append({"op": "transact", "path": [i], "q": q, "update": rng.random() < 0.5, "price": None})
+        held[i] = q
+    ops.append({"op": "update", "d": 0})
+    for d in range(1, T):
+        ops.append({"op": "update", "d": d})
+        for i in list(held):
+            r = rng.random()
+            if held[i] != 0 and r < 0.35:
+                how = rng.random()
+                if how < 0.5:
+                    ops.append({"op": "transact", "path": [i], "q": -held[i], "update": rng.random() < 0.5, "price": None})
+                else:
+                    ops.append({"op": "close", "path": [], "child": i, "update": rng.random() < 0.5})
+                held[i] = 0.0
+            elif held[i] != 0 and r < 0.6:
+                # flip the sign of the position in one trade (long -> short or back), no stop at zero
+                ops.append({"op": "transact", "path": [i], "q": -2 * held[i], "update": rng.random() < 0.5, "price": None})
+                held[i] = -held[i]
+            elif held[i] == 0 and r < 0.3:
+                q = float(rng.choice([-1, 1]) * rng.randint(5, 40))
+                ops.append({"op": "transact", "path": [i], "q": q, "update": True, "price": None})
+                held[i] = q
+        ops.append({"op": "update", "d": d})
+        if rng.random() < 0.3:
+            ops.append({"op": "observe", "on": "real"})
+    ops.append({"op": "observe", "on": "real"})
+    spec["ops"] = ops
